@@ -277,6 +277,8 @@ def result_outcome(lf, callterm):
             y = look(x[1])
             if is_call(y, "branch") and y[2]:
                 y = look(y[2][0])
+            while norm(y) != want and is_call(y, "map_err", "ok_or", "ok_or_else") and y[2] and y[1].split("::")[0] in ("std", "core"):
+                y = look(y[2][0])
             if norm(y) == want:
                 if c == ("eq", 0) or (c[0] == "ne" and 1 in c[1] and 0 not in c[1]):
                     out = "ok"
@@ -289,3 +291,24 @@ def result_outcome(lf, callterm):
                     tv = not tv
                 out = ("err" if tv else "ok") if is_call(x, "is_err") else ("ok" if tv else "err")
     return out
+
+
+def propagated_error(t):
+    """For the return value of a path that propagates an error with `?` (possibly through helpers traversed
+    inline): (source call, error value or None).  `x.ok_or(E)?` yields (x, E)."""
+    x = look(t)
+    err = None
+    while True:
+        if is_call(x, "from_residual") and x[2]:
+            x = look(x[2][0])
+        elif x[0] == "residual":
+            x = look(x[1])
+        elif is_call(x, "branch") and x[2]:
+            x = look(x[2][0])
+        elif is_call(x, "ok_or") and len(x[2]) == 2:
+            err = look(x[2][1])
+            x = look(x[2][0])
+        elif is_call(x, "map_err") and x[2]:
+            x = look(x[2][0])
+        else:
+            return x, err
